@@ -156,8 +156,10 @@ CLAIMS = {
 # clauses added after the first build round (hunt rounds, DESIGN.md 12.9), appended to the claim text
 ADDED = {
     'C01': ' Also (D6-D8): cr/dr moves ignore ModRM.mod and segment-register numbers 6/7 are rejected; memory-only operands reject mod=3; the [esi] operand of the string instructions '
-           'takes the segment-override prefix and [edi] stays in es (special_opcodes evaluated on family x prefix).',
-    'C02': ' Also (D5): the reverse ModRM table has an empty reg field, decodes back and is complete.',
+           'takes the segment-override prefix and [edi] stays in es (special_opcodes evaluated on family x prefix). D1 also demands that a mandatory prefix under which the reference defines no '
+           'instruction for an SSE opcode is rejected by the decoder (andss, movasd, SSE4 without 66).',
+    'C02': ' Also (D5-D8): the reverse ModRM table has an empty reg field, decodes back and is complete; displacements outside the brackets are accumulated; multi-immediate rows are '
+           'encoded in the order they are decoded; every predicate by which _dis rejects an (opcode, mandatory prefix) pair is applied to the assembler\'s candidates.',
     'C03': ' Also (D5): for movs/cmps/lods a segment override is printed (operand elision of __str__ evaluated) and turned back into the prefix by normalize_args (evaluated).',
     'C05': ' Also (D4/D5): rewrites are selected by their action; constant folding demands equal widths of associative operands only; every tab_size_int[K] lookup of the simplifier is '
            'dominated by a membership test, by an isinstance(.., ExprInt) on the value or an operand of it, or ranges over the table keys (no KeyError on 4/24/31-bit slices).',
